@@ -216,7 +216,7 @@ mod imp {
                 let r: Result<Vec<It>, Val> = cs
                     .map(|it: It| {
                         let c = closure_called(-1, &it);
-                        TryMapWork { child: Child::new_infallible(c, false), src: it.src, idx: it.idx }
+                        TryMapWork { child: Child::new(c), src: it.src, idx: it.idx }
                     })
                     .collect()
                     .await;
